@@ -181,6 +181,7 @@ Section Proofs.
   (* ---------- nothing but ConnectionClosed leaves the loop ---------- *)
   Hypothesis versions_ok : forall rq, ver_ok (rq_version rq).
   Hypothesis engine_versions_ok : forall rq id st enc max ver st', engine rq id st = (EResp enc max ver, st') -> ver_ok ver.
+  Hypothesis engine_messages_ok : forall rq id st reason msg st', engine rq id st = (EKmipErr reason msg, st') -> text_ok msg = true.
 
   Lemma reply_sent g rq enc respver max :
     clock_ok (now g) -> ver_ok respver -> exists b, reply g rq enc respver max = Sent b.
@@ -205,7 +206,7 @@ Section Proofs.
         * destruct (engine rq id st) as [r st'] eqn:E. cbn [fst out].
           destruct r as [enc max ver | reason msg |].
           -- apply reply_sent; auto. eapply engine_versions_ok; eauto.
-          -- apply reply_sent; auto.
+          -- rewrite (engine_messages_ok _ _ _ _ _ _ E). apply reply_sent; auto.
           -- apply reply_sent; auto.
         * cbn [fst out]. apply reply_sent; auto.
       + cbn [fst out]. destruct (error_sent g (1, 0) R_INVALID_MESSAGE MSG_PARSE Hc V10 RI MP) as (b & _ & E & _). eauto.
